@@ -96,7 +96,7 @@ Definition corr_exc (mk : list bool -> res (val * world)) (kind : string) : Prop
 Ltac ivl := interval with (i_prec 80).
 Ltac num_fact2 :=
   norm_dec; norm_max; unfold log10 in *;
-  first [ assumption | lra | ivl
+  first [ lra | ivl
         | apply Rle_not_lt; first [lra | ivl] | apply Rlt_not_le; first [lra | ivl]
         | apply Rlt_not_eq; first [lra | ivl] | apply Rgt_not_eq; first [lra | ivl]
         | (intro; lra) ].
@@ -118,9 +118,10 @@ Ltac find_answers2 mk ds k :=
   let r := RUN_ (mk ds) in
   lazymatch r with
   | Need ?P =>
-      first [ (let H := fresh "Hdec" in assert (H : P) by num_fact2;
+      (* the fact is proved and dropped again (the path condition is re-proved at the end): a growing context slows lra down *)
+      first [ (let H := fresh "Hdec" in assert (H : P) by num_fact2; clear H;
                let ds' := eval cbv in (ds ++ [true])%list in find_answers2 mk ds' k)
-            | (let H := fresh "Hdec" in assert (H : ~ P) by num_fact2;
+            | (let H := fresh "Hdec" in assert (H : ~ P) by num_fact2; clear H;
                let ds' := eval cbv in (ds ++ [false])%list in find_answers2 mk ds' k)
             | fail 10000 "undecided fact" P ]
   | _ => k ds
